@@ -1180,6 +1180,132 @@ fn eval_env(r: &mut Report, env: usize, seed: u64, index: u64, tree: &Node) {
     }
 }
 
+/// Default platform components: every tree above runs on a counting rng (ids never repeat by construction), so the
+/// generator of the ids itself - `emit::platform::rand_rng::RandRng`, what `emit::setup()` installs - is only seen here.
+/// Rounds of fan-out through the real macros on a runtime built with `RandRng`: a root span on the driver thread,
+/// `fan` worker threads entered through carried frames each opening nested child spans, plus `fan` fresh threads each
+/// starting an unrelated root. Oracle (statement: ids are non-zero and pairwise distinct within a trace; siblings and
+/// unrelated roots must therefore differ whichever thread generated them): all span ids seen in a round are pairwise
+/// distinct and non-zero, children carry the root's trace id and the right parent, and the fresh roots' trace ids are
+/// pairwise distinct. A 64-bit collision among a few thousand honest random ids has probability < 1e-12.
+#[cfg(not(miri))]
+fn default_platform_ids(r: &mut Report, seed: u64, rounds: u64) {
+    use emit::platform::rand_rng::RandRng;
+    use std::sync::Mutex;
+    type Rt<'a> = emit::runtime::Runtime<&'a Collect, emit::Empty, emit::platform::thread_local_ctxt::ThreadLocalCtxt, emit::Empty, RandRng>;
+    struct Collect(Mutex<Vec<(String, Option<emit::TraceId>, Option<emit::SpanId>, Option<emit::SpanId>)>>);
+    impl emit::Emitter for Collect {
+        fn emit<E: emit::event::ToEvent>(&self, evt: E) {
+            let evt = evt.to_event();
+            use emit::Props;
+            self.0.lock().unwrap().push((
+                evt.msg().to_string(),
+                evt.props().pull::<emit::TraceId, _>(emit::well_known::KEY_TRACE_ID),
+                evt.props().pull::<emit::SpanId, _>(emit::well_known::KEY_SPAN_ID),
+                evt.props().pull::<emit::SpanId, _>(emit::well_known::KEY_SPAN_PARENT),
+            ));
+        }
+        fn blocking_flush(&self, _: std::time::Duration) -> bool { true }
+    }
+    #[emit::span(rt: rt, "leaf {who}")]
+    fn leaf(rt: &Rt, who: &str) {
+        let _ = who;
+    }
+    #[emit::span(rt: rt, "worker {who}")]
+    fn worker(rt: &Rt, who: &str, depth: u32) {
+        leaf(rt, who);
+        if depth > 0 {
+            worker(rt, who, depth - 1);
+        }
+    }
+    #[emit::span(rt: rt, "fresh {who}")]
+    fn fresh(rt: &Rt, who: &str) {
+        leaf(rt, who);
+    }
+    #[emit::span(rt: rt, "root")]
+    fn root(rt: &Rt, fan: usize, depth: u32) {
+        let frames: Vec<_> = (0..fan).map(|_| emit::Frame::current(rt.ctxt())).collect();
+        std::thread::scope(|s| {
+            for (i, frame) in frames.into_iter().enumerate() {
+                s.spawn(move || frame.call(|| worker(rt, &format!("w{i}"), depth)));
+            }
+            for i in 0..fan {
+                s.spawn(move || fresh(rt, &format!("f{i}")));
+            }
+        });
+    }
+    for round in 0..rounds {
+        let fan = 2 + ((seed + round) % 7) as usize;
+        let depth = ((seed / 7 + round) % 3) as u32;
+        let sink = Collect(Mutex::new(Vec::new()));
+        let rt: Rt = emit::runtime::Runtime::build(&sink, emit::Empty, emit::platform::thread_local_ctxt::ThreadLocalCtxt::new(), emit::Empty, RandRng::new());
+        root(&rt, fan, depth);
+        let evts = sink.0.into_inner().unwrap();
+        r.eval();
+        r.observe("default-platform:rounds", 1);
+        r.observe("default-platform:span-events", evts.len() as u64);
+        let case = |what: &str| json!({"section": "default-platform", "seed": seed, "round": round, "fan": fan, "depth": depth, "what": what,
+            "events": evts.iter().map(|(m, t, s, p)| json!({"msg": m, "trace": t.map(|x| x.to_string()), "span": s.map(|x| x.to_string()), "parent": p.map(|x| x.to_string())})).collect::<Vec<_>>()});
+        let want = 1 + fan * (2 * (depth as usize + 1)) + fan * 2;
+        if evts.len() != want {
+            r.violation("C04:default-platform:span-event-count", &format!("{} span events for {} spans", evts.len(), want), case("count"));
+            continue;
+        }
+        let mut spans = std::collections::HashMap::new();
+        let mut dup = None;
+        for (m, t, s, _) in &evts {
+            match (t, s) {
+                (Some(_), Some(s)) => {
+                    if let Some(prev) = spans.insert(*s, m.clone()) {
+                        dup.get_or_insert((prev, m.clone()));
+                    }
+                }
+                _ => {
+                    r.violation("C04:default-platform:span-without-ids", &format!("span event `{m}` has no trace / span id on the default rng"), case("no-ids"));
+                }
+            }
+        }
+        if let Some((a, b)) = dup {
+            r.violation("C04:default-platform:span-id-repeats-across-threads",
+                &format!("spans `{a}` and `{b}` of one round share a span id (ids generated on different threads by the default RandRng)"), case("dup-span"));
+        }
+        let root_evt = evts.iter().find(|e| e.0 == "root").cloned();
+        if let Some((_, rt_trace, rt_span, _)) = root_evt {
+            let mut fresh_traces = std::collections::HashSet::new();
+            for (m, t, _s, p) in &evts {
+                if m.starts_with("worker w") || m.starts_with("leaf w") {
+                    if *t != rt_trace {
+                        r.violation("C04:default-platform:carried-child-not-in-root-trace", &format!("`{m}` has trace {t:?}, the root {rt_trace:?}"), case("trace"));
+                    }
+                    if m.starts_with("worker w") && p.is_none() {
+                        r.violation("C04:default-platform:carried-child-without-parent", &format!("`{m}` has no parent"), case("parent"));
+                    }
+                }
+                if m.starts_with("fresh f") {
+                    if *t == rt_trace {
+                        r.violation("C04:default-platform:fresh-root-shares-trace", &format!("`{m}` started on a fresh thread is in the driver's trace"), case("fresh-in-root"));
+                    }
+                    if p.is_some() {
+                        r.violation("C04:default-platform:fresh-root-has-parent", &format!("`{m}` has a parent"), case("fresh-parent"));
+                    }
+                    if let Some(t) = t {
+                        if !fresh_traces.insert(*t) {
+                            r.violation("C04:default-platform:trace-id-repeats-across-threads",
+                                &format!("two unrelated roots started on fresh threads share trace id {t} (default RandRng)"), case("dup-trace"));
+                        }
+                    }
+                }
+            }
+            let direct: Vec<_> = evts.iter().filter(|e| e.0.starts_with("worker w") && e.3 == rt_span).collect();
+            r.observe("default-platform:children-of-root-on-other-threads", direct.len() as u64);
+            if direct.len() != fan {
+                r.violation("C04:default-platform:carried-children-parent", &format!("{} of {} first-level workers name the root as parent", direct.len(), fan), case("direct"));
+            }
+            r.nontrivial(&("default-platform", fan, depth));
+        }
+    }
+}
+
 fn main() {
     let args = Args::parse();
     let mut r = Report::new(
@@ -1226,6 +1352,9 @@ fn main() {
             eval_env(r, 5 + (i % N_WRAPPED as u64) as usize, seed, i, &tree);
         }
     });
+
+    #[cfg(not(miri))]
+    default_platform_ids(&mut r, seed, args.n(60, 2_000));
 
     let orphans = ORPHANS.take();
     if !orphans.is_empty() {
